@@ -385,6 +385,12 @@ def _contact_position(v, v1, v2, search_direction):
         ])
         coords_sum = np.sum(barycentric_coordinates)
 
+    if coords_sum == 0.0:
+        # completely degenerate portal (e.g. two flat colliders in one plane):
+        # weight the three portal vertices equally instead of dividing by 0
+        barycentric_coordinates = np.array([0.0, 1.0, 1.0, 1.0])
+        coords_sum = 3.0
+
     barycentric_coordinates /= coords_sum
 
     v1 = barycentric_coordinates.dot(v1)
